@@ -1,5 +1,12 @@
 package main
 
+import (
+	"fmt"
+	"strings"
+
+	"golang.org/x/tools/go/ssa"
+)
+
 // C01 / C02: structural necessary conditions of "ASA / IOS approve converges".
 // The planner is package cisco; asa and ios embed its State.  What is decided is the
 // same kind of structure as for PAN-OS, NSX and Linux (C03-C05): agreement on the
@@ -38,6 +45,7 @@ func checkCiscoConv(p *Prog, r *Report, prop, flavour string) {
 	if flavour == "ios" {
 		r.rule("R08.k", "IOS numbering constants agree (see C08).")
 		ruleIOSNumbering(p, r)
+		ruleDroppedMoveIdentical(p, r, "R02.l")
 	}
 	r.rule("R08.m", "Configuration-mode bookkeeping (see C08): every emission goes through the helpers that maintain the mode.")
 	ruleConfMode(p, r)
@@ -45,4 +53,91 @@ func checkCiscoConv(p *Prog, r *Report, prop, flavour string) {
 	ruleSinglePass(p, r)
 	r.Trusted = []string{"go/ssa, call graph", "the audited rows of tables/guards.tsv, sticky_audit.tsv, fresh_audit.tsv, phases.tsv, normaliser_consts.tsv are the intended decisions (each row carries its reason)"}
 	r.NotDec = "convergence itself: that executing the emitted commands on a device yields a configuration equivalent to the target and that a second compare is empty (needs a device model and execution); Myers diff and line-number arithmetic as computed values"
+}
+
+// ruleDroppedMoveIdentical (R02.l): in the IOS ACL planner a target line that equals a
+// device line up to the attribute log / log-input is a move of that line.  The move
+// may be dropped (no command) only when the two lines are the same text; otherwise the
+// attribute change is lost and the device never reaches the target.
+func ruleDroppedMoveIdentical(p *Prog, r *Report, rule string) {
+	r.rule(rule, "IOS ACL planner: device and target lines are paired with log / log-input stripped, so a pair may differ in that attribute. Every return of moveACL that is reachable without a call of delACL / addACL (the move is dropped, nothing is sent for the pair) is controlled by an equality test of the printed device line and the printed target line. (Pins the defect repaired by 37a5ca3.)")
+	par := p.Fn("(*cisco.State).diffIOSACLs")
+	var cl *ssa.Function
+	if par != nil {
+		cl = closureByName(par, "moveACL")
+	}
+	if cl == nil {
+		r.fail(rule, "anchor|(*cisco.State).diffIOSACLs.moveACL", "", "closure not found", "")
+		return
+	}
+	isEmit := func(in ssa.Instruction) bool {
+		ci, ok := in.(ssa.CallInstruction)
+		if !ok {
+			return false
+		}
+		if _, isDefer := in.(*ssa.Defer); isDefer {
+			return false
+		}
+		for _, cal := range calleesOfSite(p, &callSite{In: ci}) {
+			if cal.Parent() == par {
+				switch closureName(cal) {
+				case "delACL", "addACL":
+					return true
+				}
+			}
+		}
+		return false
+	}
+	n := 0
+	for _, b := range cl.Blocks {
+		if len(b.Instrs) == 0 {
+			continue
+		}
+		ret, ok := b.Instrs[len(b.Instrs)-1].(*ssa.Return)
+		if !ok {
+			continue
+		}
+		// reachable from the entry without an emission?
+		if !reachesAvoiding(cl.Blocks[0], b, isEmit) {
+			continue
+		}
+		n++
+		okEq := false
+		for _, g := range guardSet(ret) {
+			if strings.Contains(g, "getPrintableCmd") && strings.Contains(g, "printNetspocCmd") && strings.Contains(g, "==") {
+				okEq = true
+			}
+		}
+		r.add(rule, fmt.Sprintf("dropped-move|%d", n), p.ipos(ret), "moveACL returns without a command only for identical lines", okEq,
+			fmt.Sprintf("the move is dropped under %q: a pair that differs in log / log-input is left as it is, no command is sent, the device keeps its old line", guardSet(ret)))
+	}
+	r.floor(rule, "returns of moveACL that drop the move", n, 1)
+}
+
+// reachesAvoiding: block `to` is reachable from block `from` along a path on which no
+// instruction satisfies stop (instructions of `to` in front of its terminator included).
+func reachesAvoiding(from, to *ssa.BasicBlock, stop func(ssa.Instruction) bool) bool {
+	seen := map[*ssa.BasicBlock]bool{}
+	var walk func(b *ssa.BasicBlock) bool
+	walk = func(b *ssa.BasicBlock) bool {
+		if seen[b] {
+			return false
+		}
+		seen[b] = true
+		for _, in := range b.Instrs {
+			if stop(in) {
+				return false
+			}
+		}
+		if b == to {
+			return true
+		}
+		for _, s := range b.Succs {
+			if walk(s) {
+				return true
+			}
+		}
+		return false
+	}
+	return walk(from)
 }
